@@ -26,7 +26,7 @@ PROPS = {
                              "latch:ordered", "latch:race", "latch:count_down-n", "latch:arrive_and_wait", "latch:all-parked-before-final", "spurious-wakeups", "pre-wait-delay"],
         "assumptions": [_A_HANG, "count_down never drives the count below zero (std::latch precondition)"],
         "runs": {
-            "quick": [{"config": "plain", "shards": 16}, {"config": "tsan", "shards": 16, "args": {"n": 246}}, {"config": "asan", "shards": 16, "args": {"n": 246}}],
+            "quick": [{"config": "plain", "shards": 16}, {"config": "tsan", "shards": 16, "args": {"n": 123}}, {"config": "asan", "shards": 16, "args": {"n": 123}}],
             "thorough": [{"config": "plain", "shards": 16, "seeds": 2}, {"config": "tsan", "shards": 16, "args": {"n": 2050}}, {"config": "asan", "shards": 16, "args": {"n": 2050}}],
         },
     },
@@ -69,7 +69,7 @@ PROPS = {
     "C24": {
         "level": "exploration",
         "technique": "runtime monitoring: per-thread stamped operation logs merged into a history checker (unique tags, self-validating payloads); TSan and ASan on the same workloads",
-        "level_text": "1..3 consumers, 1..3 producers and 0..2 separate requesters hammer one AsyncRequest<std::string> (up to 3000 quick / 10000 thorough operations per history, delays at the two hook sites). "
+        "level_text": "1..3 consumers, 1..3 producers and 0..2 separate requesters run 4..16 (quick) / 4..40 (thorough) histories per case, each on a fresh AsyncRequest<std::string>, meeting at a relaxed spin barrier before every history so that the threads really overlap (50..600 / 50..2000 operations per thread and history, delays at the two hook sites). "
                       "Checked: every returned value is the intact payload of a successful emplace, no tag is returned twice or before its emplace began, two successes need a consumption and a new request in between, "
                       "successes <= requests.",
         "level_note": "The history check is sound (it only uses orderings implied by the stamps), not complete: an anomaly that is consistent with some linearisation is left to TSan/ASan, which see the underlying race.",
@@ -78,8 +78,8 @@ PROPS = {
         "required_classes": ["one-consumer", "multi-consumer", "one-producer", "multi-producer", "consumer-requests", "separate-requesters", "perturbed", "many-updates"],
         "assumptions": [_A_STAMP],
         "runs": {
-            "quick": [{"config": "plain", "shards": 16}, {"config": "tsan", "shards": 16, "args": {"n": 160, "ops": 1500}}, {"config": "asan", "shards": 16, "args": {"n": 160, "ops": 1500}}],
-            "thorough": [{"config": "plain", "shards": 16, "seeds": 2}, {"config": "tsan", "shards": 16, "args": {"n": 1500}}, {"config": "asan", "shards": 16, "args": {"n": 1500}}],
+            "quick": [{"config": "plain", "shards": 16}, {"config": "tsan", "shards": 16, "args": {"n": 64, "ops": 300, "rounds": 8}}, {"config": "asan", "shards": 16, "args": {"n": 64, "ops": 300, "rounds": 8}}],
+            "thorough": [{"config": "plain", "shards": 16, "seeds": 2}, {"config": "tsan", "shards": 16, "args": {"n": 800, "ops": 600, "rounds": 16}}, {"config": "asan", "shards": 16, "args": {"n": 800, "ops": 600, "rounds": 16}}],
         },
     },
     "C25": {
@@ -127,8 +127,8 @@ PROPS = {
         "required_classes": ["one-wave", "multi-wave", "wave-of-64", "wave-of-1", "more-than-256-threads", "pool-workers"],
         "assumptions": [],
         "runs": {
-            "quick": [{"config": "plain", "shards": 16}, {"config": "tsan", "shards": 16, "args": {"n": 320}}],
-            "thorough": [{"config": "plain", "shards": 16, "seeds": 3}, {"config": "tsan", "shards": 16, "args": {"n": 3200}}],
+            "quick": [{"config": "plain", "shards": 16}, {"config": "tsan", "shards": 16, "args": {"n": 48}}],
+            "thorough": [{"config": "plain", "shards": 16, "seeds": 3}, {"config": "tsan", "shards": 16, "args": {"n": 800}}],
         },
     },
 }
